@@ -287,6 +287,52 @@ def body_two_live(E, o1, o2, o3, pol3, v1, v2, v3):
         return True
 
 
+def body_two_live_drop(E, o1, o2, o3, o4, dl, v1, v2, v3):
+    """two live Harvester objects on one data name: labels 1 and 2 are added (through either object), one of them
+    is removed again with drop_sel (through either object), then label 3 is added (through either object): the
+    dropped label stays dropped - a synced step starts from what is on disk, not from the acting object's memory"""
+    dl = concretize(dl, 1, 2)
+    with E() as env:
+        path = env.parent + "/data.h5"
+        hs = [Harvester(Runner(lambda a: 0, var_names="x"), data_name=path) for _ in range(2)]
+        ghost = {}
+        for o, lab, v in ((o1, 1, v1), (o2, 2, v2), (o3, None, None), (o4, 3, v3)):
+            h = hs[1 if cbool(o) else 0]
+            if lab is None:
+                h.drop_sel(a=dl)
+                ghost = {k: x for k, x in ghost.items() if k != (dl,)}
+            else:
+                h.add_ds(mk_ds(env, {lab: v}))
+                ghost = dict(ghost)
+                ghost[(lab,)] = v
+            if not same_cells(disk_cells(env, "data.h5", "h5netcdf") or {}, ghost):
+                return False
+            if not same_cells(cells_of(env, h.full_ds), ghost):
+                return False
+        return same_cells(cells_of(env, Harvester(None, data_name=path).full_ds), ghost)
+
+
+def body_unsynced_first(E, ext, eng, n0, v1, v2, v3):
+    """a new data name (no file yet): n0 = 1..2 harvests with sync=False, then a synced one: while there is no file
+    the object's memory is the only copy, and the first synced step delivers all of it"""
+    n0 = concretize(n0, 1, 2)
+    engine = ["h5netcdf", "joblib"][concretize(eng, 0, 1)]
+    with E() as env:
+        name = "data.h5" if cbool(ext) else "data"
+        path = env.parent + "/" + name
+        h = Harvester(Runner(lambda a: 0, var_names="x"), data_name=path, engine=engine)
+        ghost = {}
+        steps = [(1, v1, False), (2, v2, False)][:n0] + [(3, v3, True)]
+        for lab, v, sy in steps:
+            h.add_ds(mk_ds(env, {lab: v}), sync=sy)
+            ghost[(lab,)] = v
+            if not same_cells(cells_of(env, h.full_ds), ghost):
+                return False
+        if not same_cells(disk_cells(env, name, engine) or {}, ghost):
+            return False
+        return same_cells(cells_of(env, Harvester(None, data_name=path, engine=engine).full_ds), ghost)
+
+
 BODIES = {}
 _G = globals()
 _SIG = ("ext:bool eng:int pre_on:bool b1:int b2:int b3:int w1:int w2:int w3:int "
@@ -339,6 +385,15 @@ CONDS = [
               bounds="three synced add_ds steps on labels 1, 2, 1 issued through either of two simultaneously live "
                      "Harvester objects (every assignment), third step with any policy and equal or conflicting value: "
                      "disk and the acting object's memory follow the oracle"),
+    make_cond(_G, "two_live_drop", body_two_live_drop,
+              "o1:bool o2:bool o3:bool o4:bool dl:int v1:int v2:int v3:int", ["1 <= dl <= 2"], timeout=300,
+              bounds="two simultaneously live Harvester objects: add label 1, add label 2, drop_sel of label 1 or 2, "
+                     "add label 3, each step through either object (every assignment): disk, the acting object's "
+                     "memory and a new session hold exactly the labels not dropped"),
+    make_cond(_G, "unsynced_first", body_unsynced_first, "ext:bool eng:int n0:int v1:int v2:int v3:int",
+              ["0 <= eng <= 1 and 1 <= n0 <= 2"], timeout=300,
+              bounds="new data name (no file yet), with / without extension, both engines: one or two add_ds with "
+                     "sync=False, then a synced add_ds: memory, disk and a new session hold everything harvested"),
     make_cond(_G, "reshape", body_reshape, "ext:bool v1:int v2:int v3:int fresh:bool", [], timeout=120,
               bounds="add_ds, expand_dims, optional new session, drop_sel: memory, disk and a new session agree"),
 ] + [c for pol in (0, 1, 2) for c in split_conds(
@@ -357,8 +412,9 @@ ASSUMPTIONS = [
     "zarr/netcdf4 engines and dtype changes are outside the claim",
     "file system replaced by FakeFS; to_netcdf / joblib.dump store a copy under the path the real save_ds computed",
     "missing and NaN cells are not distinguished by the oracle",
-    "a step with sync=False ends the explored history (what a later synced step should do with memory-only data "
-    "is not settled by the property text)",
+    "a step with sync=False ends the explored history once a file exists (what a later synced step should do with "
+    "memory-only data when the file holds other data is not settled by the property text); before the first file "
+    "exists, unsynced steps followed by a synced one are explored (unsynced_first)",
     "histories of length <= 2 over 3 coordinates x 1 variable, plus the one-step inductive form (thorough)",
 ]
 
